@@ -11,6 +11,7 @@ Shared machinery for C26 and C27 (c27.py imports from here):
 * decidable class predicates (Python mirrors of the Lean ``Known…`` definitions in lean/LokiModel/C26/Model.lean).
 """
 import random
+import re
 from fractions import Fraction
 
 from ..core import Prop, Case, Failure
@@ -253,11 +254,13 @@ def _flat(nodes):
 class Built:
     """real IR of the main unit of a FIR program with the real dataflow analysis attached"""
 
-    def __init__(self, prog, enrich):
+    def __init__(self, prog, enrich, recase=0):
         from loki.analyse.dataflow_analysis import DataflowAnalysis
         self.prog = prog
         self.enrich = enrich
         src = fir.emit_fortran(prog, wrap_program=False)
+        if recase:
+            src = recase_source(src, prog, recase)
         self.src = src
         sf = fir.parse_fortran(src)
         self.sf = sf
@@ -352,23 +355,67 @@ class Built:
 _cache = {}
 
 
-def built(prog, enrich):
-    key = (dumps(prog), bool(enrich))
+def program_names(prog):
+    """every identifier a program introduces: units, declared variables, associate names (lower case)"""
+    names = set()
+    for u in prog[2:]:
+        names.add(str(u[1]))
+        names |= {str(a) for a in u[2]}
+        names |= {str(d[1]) for d in u[3]}
+        for s in walk(u[4]):
+            if _h(s) == 'assoc':
+                names |= {str(b[0]) for b in s[1]}
+            elif _h(s) == 'do':
+                names.add(str(s[1]))
+    return names
+
+
+_IDENT = re.compile(r'(?<![0-9A-Za-z_.])[A-Za-z_][A-Za-z0-9_]*')
+
+
+def recase_source(src, prog, seed):
+    """Fortran is case-insensitive: spell every occurrence of every identifier of the program (variables, dummies, DO
+    variables, associate names, routine names) in a letter case drawn per occurrence; comments / pragmas are left alone"""
+    rnd = random.Random(seed)
+    names = program_names(prog)
+
+    def sub(m):
+        t = m.group(0)
+        if t.lower() not in names:
+            return t
+        k = rnd.randrange(4)
+        if k == 0:
+            return t.lower()
+        if k == 1:
+            return t.upper()
+        if k == 2:
+            return t[0].upper() + t[1:].lower()
+        return ''.join(c.upper() if rnd.random() < 0.5 else c.lower() for c in t)
+    out = []
+    for line in src.split('\n'):
+        i = line.find('!')
+        code, rest = (line, '') if i < 0 else (line[:i], line[i:])
+        out.append(_IDENT.sub(sub, code) + rest)
+    return '\n'.join(out)
+
+
+def built(prog, enrich, recase=0):
+    key = (dumps(prog), bool(enrich), int(recase))
     if key not in _cache:
         if len(_cache) > 3000:
             _cache.clear()
-        _cache[key] = Built(prog, enrich)
+        _cache[key] = Built(prog, enrich, int(recase))
     return _cache[key]
 
 
 frontend_rejects = [0]
 
 
-def frontend_ok(prog, enrich):
+def frontend_ok(prog, enrich, recase=0):
     """False when the Loki frontend itself rejects the (valid) generated source, e.g. an ASSOCIATE selector that mentions
     another associate name (notes/FIR.md finding L2; a frontend matter, C01/C02): such programs are not used"""
     try:
-        built(prog, enrich)
+        built(prog, enrich, recase)
         return True
     except Exception:
         frontend_rejects[0] += 1
@@ -838,6 +885,85 @@ def gen_tables():
             'end LokiModel.Generated.C26\n')
 
 
+# ---------------------------------------------------------------- directed programs (branch families)
+
+def _D(x, ty, intent='none', dims=()):
+    return [A('decl'), A(x), A(ty), A(intent), [list(d) for d in dims], fir.NONE]
+
+
+def _subst_name(e, old, new):
+    if isinstance(e, list):
+        if _h(e) in ('v', 'idx', 'sec') and str(e[1]) == old:
+            return [e[0], A(new)] + [_subst_name(x, old, new) for x in e[2:]]
+        return [_subst_name(x, old, new) for x in e]
+    return e
+
+
+def directed_program(rng):
+    """small routine `kernel(n, a, res, acc)` with a loop over 1..n whose body is a SELECT CASE or an IF / ELSE IF / ELSE
+    chain; the branches write and read the scalar `acc` in all arrangements (written in an earlier branch and read in a
+    later one, the reverse, accumulated, untouched), optionally through an ASSOCIATE name.  Mutually exclusive branches
+    are the family: a read in one branch is upward exposed whatever the other branches define."""
+    V, I, IDX, BIN, CALL = fir.V, fir.I, fir.IDX, fir.BIN, fir.CALL
+    i = 'i1'
+    ai = IDX('a', V(i))
+    pool = {
+        'write': lambda: [[A('assign'), V('acc'), rng.choice([ai, BIN('add', ai, I(1)), I(0)])]],
+        'read': lambda: [[A('assign'), IDX('res', V(i)), rng.choice([V('acc'), BIN('add', V('acc'), ai)])]],
+        'accum': lambda: [[A('assign'), V('acc'), CALL('mod', BIN('add', V('acc'), ai), I(97))]],
+        'neutral': lambda: [[A('assign'), IDX('res', V(i)), ai]],
+        'write-read': lambda: [[A('assign'), V('acc'), ai], [A('assign'), IDX('res', V(i)), V('acc')]],
+    }
+    kinds = list(pool)
+    nb = rng.choice((2, 2, 3))
+    if rng.random() < 0.6:
+        # the family member the other arrangements are measured against: write in an earlier, read in a later branch
+        br = ['neutral'] * nb
+        w = rng.randrange(nb - 1)
+        r = rng.randrange(w + 1, nb)
+        br[w], br[r] = 'write', 'read'
+    else:
+        br = [rng.choice(kinds) for _ in range(nb)]
+    bodies = [pool[k]() for k in br]
+    shape = rng.choice(('select', 'select', 'if', 'if'))
+    if shape == 'select':
+        K = nb + rng.choice((0, 1))
+        vals = list(range(K))
+        rng.shuffle(vals)
+        cases = [[[vals[j]], bodies[j]] for j in range(nb)]
+        dflt = pool[rng.choice(kinds)]() if (K > nb and rng.random() < 0.5) else []
+        inner = [A('select'), CALL('mod', V(i), I(K)), cases, dflt]
+    else:
+        conds = [BIN('eq', CALL('mod', V(i), I(2)), I(1)), BIN('gt', V(i), I(2)), BIN('gt', ai, I(0)),
+                 BIN('lt', ai, I(0))]
+        rng.shuffle(conds)
+        # if c0 B0 [else if c1 B1] else B_last   (ELSE IF chains are nested single-IF else branches)
+        last = bodies[-1] if rng.random() < 0.8 else []
+        chain = last
+        for j in range(nb - 2, -1, -1):
+            chain = [[A('if'), conds[j], bodies[j], chain]]
+        inner = chain[0]
+    body = [inner]
+    if rng.random() < 0.3:
+        body = [[A('assoc'), [[A('z1'), V('acc')]], _subst_name(body, 'acc', 'z1')]]
+    pre = [[A('assign'), V('acc'), I(rng.randint(0, 3))]] if rng.random() < 0.3 else []
+    post = [[A('assign'), IDX('res', I(1)), BIN('add', IDX('res', I(1)), V('acc'))]] if rng.random() < 0.4 else []
+    main = [A('unit'), A('kernel'), [A('n'), A('a'), A('res'), A('acc')],
+            [_D('n', 'int', 'in'), _D('a', 'int', 'in', [(I(1), V('n'))]), _D('res', 'int', 'inout', [(I(1), V('n'))]),
+             _D('acc', 'int', 'inout'), _D(i, 'int')],
+            pre + [[A('do'), A(i), I(1), V('n'), fir.NONE, body]] + post]
+    return fir.canon([A('program'), A('kernel'), main])
+
+
+def directed_inputs(rng, prog, k=2):
+    out = []
+    for _ in range(k):
+        n = rng.randint(3, 5)
+        row = lambda x: [A(x)] + [fir.encode_val(rng.randint(-4, 6)) for _ in range(n)]
+        out.append([[A('n'), fir.encode_val(n)], row('a'), row('res'), [A('acc'), fir.encode_val(rng.randint(-3, 3))]])
+    return fir.canon(out)
+
+
 def dec_bool(x):
     s = str(x)
     if s not in ('true', 'false'):
@@ -846,8 +972,13 @@ def dec_bool(x):
 
 
 def decode_req(req, head):
-    if not (isinstance(req, list) and len(req) == 4 and str(req[0]) == head):
+    """(enrich, program, input sets, recase): the optional 5th element is the seed of the letter-case respelling of the
+    emitted source (0 / absent = lower case as emitted)"""
+    if not (isinstance(req, list) and len(req) in (4, 5) and str(req[0]) == head):
         raise ValueError('malformed request')
+    recase = int(str(req[4])) if len(req) == 5 else 0
+    if recase < 0:
+        raise ValueError('malformed recase')
     enrich = dec_bool(req[1])
     prog = req[2]
     if not (isinstance(prog, list) and prog and str(prog[0]) == 'program'):
@@ -855,7 +986,7 @@ def decode_req(req, head):
     inputs = req[3]
     if not isinstance(inputs, list):
         raise ValueError('malformed inputs')
-    return enrich, prog, inputs
+    return enrich, prog, inputs, recase
 
 
 def _list_variants(ss):
@@ -894,13 +1025,13 @@ def _list_variants(ss):
 def shrink_request(req):
     """structure-preserving smaller requests: fewer input sets, fewer statements in the main unit (declarations and
     callees are kept, so the program stays well-formed; variants that no longer run are skipped by the oracle)"""
-    head, enrich, prog, inputs = req[0], req[1], req[2], req[3]
+    head, enrich, prog, inputs, tail = req[0], req[1], req[2], req[3], list(req[4:])
     if len(inputs) > 1:
         for i in range(len(inputs)):
-            yield [head, enrich, prog, inputs[:i] + inputs[i + 1:]]
+            yield [head, enrich, prog, inputs[:i] + inputs[i + 1:]] + tail
     main = prog[2]
     for v in _list_variants(list(main[4])):
-        yield [head, enrich, prog[:2] + [[main[0], main[1], main[2], main[3], v]] + prog[3:], inputs]
+        yield [head, enrich, prog[:2] + [[main[0], main[1], main[2], main[3], v]] + prog[3:], inputs] + tail
 
 
 HAND = [
@@ -961,14 +1092,22 @@ class C26(Prop):
     def gen(self, rng, tier):
         for l in HAND:
             yield Case(loads(l), stream='hand')
-        n = {'quick': 14, 'thorough': 420, 'search': 120}.get(tier, 14)
+        nd = {'quick': 6, 'thorough': 120, 'search': 60}.get(tier, 6)
+        for _ in range(nd):
+            prog = directed_program(rng)
+            rc = rng.randint(1, 10 ** 6) if rng.random() < 0.6 else 0
+            if not frontend_ok(prog, False, rc):
+                continue
+            yield Case([A('dfa'), False, prog, directed_inputs(rng, prog), rc], stream='directed')
+        n = {'quick': 10, 'thorough': 400, 'search': 100}.get(tier, 10)
         for name, prog in gen_programs(rng, n):
             enrich = rng.random() < 0.6
-            if not frontend_ok(prog, enrich):
+            rc = rng.randint(1, 10 ** 6) if rng.random() < 0.5 else 0
+            if not frontend_ok(prog, enrich, rc):
                 continue
             inputs = fir.gen_inputs(rng, prog, 3)
             nontrivial = any(kids_of(s) for s in fir.find_unit(prog, fir.prog_main(prog))[4])
-            yield Case([A('dfa'), enrich, prog, inputs], stream=name, nontrivial=nontrivial)
+            yield Case([A('dfa'), enrich, prog, inputs, rc], stream=name, nontrivial=nontrivial)
 
     details = set()
 
@@ -1002,8 +1141,8 @@ class C26(Prop):
         return problems[:5], {'theorem_vs_oracle_checked': len(todo), 'theorem_vs_oracle_inside_covered_class': inside}
 
     def impl(self, req):
-        enrich, prog, _ = decode_req(req, 'dfa')
-        b = built(prog, enrich)
+        enrich, prog, _, rc = decode_req(req, 'dfa')
+        b = built(prog, enrich, rc)
         if b.error:
             return [A('error'), A(b.error)]
         body = b.routine.body
@@ -1011,8 +1150,8 @@ class C26(Prop):
                 ann(b, b.tree)]
 
     def oracle(self, req):
-        enrich, prog, inputs = decode_req(req, 'dfa')
-        b = built(prog, enrich)
+        enrich, prog, inputs, rc = decode_req(req, 'dfa')
+        b = built(prog, enrich, rc)
         if b.error:
             cls = 'assoc-expr-selector-crash' if has_assoc_crash(prog) else None
             return [Failure(f'attach_dataflow_analysis raised {b.error} on a valid routine', cls)]
